@@ -21,6 +21,11 @@ ACTSETS = {
     'hi3': lambda: [3, 4, 5],
     'flt': lambda: [0.0, 0.5, 1.0],
     'fhi': lambda: [2.5, 3.5],
+    # the 0/1-ambiguity alphabet: exactly one of 0/1 next to another int (a two-item integer PMF then starts with an object that IS an action)
+    'z5': lambda: [0, 5],
+    'o5': lambda: [1, 5],
+    '5z': lambda: [5, 0],
+    '5o': lambda: [5, 1],
     # categorical actions: Finalize (Repr) turns them into one-hot tuples and has to re-key every reward function
     'cat': lambda: [HCat(v, ABC) for v in 'abc'],
     'cat2': lambda: [HCat('c', ABC), HCat('a', ABC)],
@@ -199,7 +204,8 @@ def choose(spec, k, actions):
     """The learner's answer to its k-th predict call: (action object, probability or None, kwargs)."""
     a = actions[(k + spec['off']) % len(actions)] if actions else 7 + k
     p = (k + 1) / 16 if spec['fmt'] in ('ap', 'apk') else None
-    kw = {'k': k, 't': 'kw'} if spec['fmt'] in ('ak', 'apk') else {}
+    if spec['fmt'] in ('pm', 'pmk') and actions: p = 1          # a one-hot PMF: the chosen action is played with probability 1
+    kw = {'k': k, 't': 'kw'} if spec['fmt'] in ('ak', 'apk', 'pmk') else {}
     return a, p, kw
 
 
@@ -207,8 +213,13 @@ def score_value(j):
     return (j % 4 + 1) / 8
 
 
-def _render(spec, a, p, kw):
+def _render(spec, a, p, kw, k=0, actions=None):
     f = spec['fmt']
+    if f in ('pm', 'pmk'):
+        if not actions: return a                                # no action set to spread a PMF over: a bare action
+        j = (k + spec['off']) % len(actions)
+        pmf = [1 if i == j else 0 for i in range(len(actions))] # bare PMF with INTEGER entries
+        return pmf if f == 'pm' else (pmf, kw)
     if f == 'a': return a
     if f == 'ap': return (a, p)
     if f == 'ak': return (a, kw)
@@ -253,7 +264,7 @@ class RecLearner:
         self.trace.append(('predict', snap(context), snap(actions)))
         a, p, kw = choose(self.spec, k, actions)
         if self.spec['fmt'] in ('a', 'ak') and isinstance(a, dict): self.bare_mapping = True     # a bare dict action has been answered
-        return _render(self.spec, a, p, kw)
+        return _render(self.spec, a, p, kw, k, actions)
 
     def predict(self, context, actions):
         if self._refuse((context, actions)):
@@ -427,7 +438,7 @@ def run_and_compare(env, learn, ev, record, spec):
     pattern = None
     # SafeLearner's documented test for a batch answer whose major order cannot be seen (a square answer: batch size == items per row):
     # one extra predict with a batch holding only the first row, right after the first batch's predict; its result is discarded
-    square = spec['batch'] == 'rows' and env['batch'] and len(units[0]) == {'a': 1, 'ap': 2, 'ak': 2, 'apk': 3}[spec['fmt']]
+    square = spec['batch'] == 'rows' and env['batch'] and len(units[0]) == {'a': 1, 'ap': 2, 'ak': 2, 'apk': 3}.get(spec['fmt'], 0)
     probe = 0
     for pred in (0, 1):
         for score in (0, 1):
